@@ -21,7 +21,7 @@ use std::{
 };
 
 use qbase::{
-    frame::{MaxStreamsFrame, ReceiveFrame, StreamCtlFrame},
+    frame::{io::ReceiveFrame, MaxStreamsFrame, StreamCtlFrame},
     net::tx::{ArcSendWaker, Signals},
     util::ArcAsyncDeque,
     varint::VarInt,
@@ -48,7 +48,7 @@ impl Wake for Wk {
 
 pub struct Wakers {
     log: Arc<Mutex<Vec<usize>>>,
-    w: Vec<Waker>,
+    pub w: Vec<Waker>,
 }
 impl Wakers {
     fn new() -> Self {
@@ -71,14 +71,14 @@ pub trait Inst: Sized {
     const CLOSE: &'static str;
     fn new(rng: &mut Rng) -> Self;
     /// a random op (text); `single`: only task 0 polls
-    fn gen(&self, rng: &mut Rng, single: bool) -> String;
+    fn gen_op(&self, rng: &mut Rng, single: bool) -> String;
     /// small alphabet for the exhaustive tier
     fn alphabet() -> Vec<String>;
     /// apply to the REAL object; result token
     fn apply(&mut self, op: &[&str], wk: &Wakers) -> String;
 }
 
-fn poll_tok<T>(p: Poll<T>, f: impl FnOnce(T) -> String) -> String {
+pub fn poll_tok<T>(p: Poll<T>, f: impl FnOnce(T) -> String) -> String {
     match p {
         Poll::Pending => "pending".into(),
         Poll::Ready(v) => f(v),
@@ -184,7 +184,7 @@ fn run_case<I: Inst>(sink: &mut Sink, id: &str, ops: &mut dyn FnMut(&I, usize) -
     }
 }
 
-fn run_inst<I: Inst>(o: &Opts) {
+pub fn run_inst<I: Inst>(o: &Opts) {
     let mut sink = Sink::new_with_stats(&o.out, &o.stats);
     // random schedules
     for case in 0..o.cases {
@@ -197,7 +197,7 @@ fn run_inst<I: Inst>(o: &Opts) {
         let len = rng.range(1, 12) as usize;
         let single = !I::MULTI && !rng.chance(1, 4);
         let mut r2 = Rng::new(o.seed ^ 0x5555, case);
-        let mut f = |i: &I, n: usize| if n < len { Some(i.gen(&mut r2, single)) } else { None };
+        let mut f = |i: &I, n: usize| if n < len { Some(i.gen_op(&mut r2, single)) } else { None };
         run_case::<I>(&mut sink, &format!("{}", case), &mut f, &mut rng);
     }
     // exhaustive small scope
@@ -263,7 +263,7 @@ impl Inst for DequeI {
     fn new(_: &mut Rng) -> Self {
         DequeI { q: ArcAsyncDeque::new(), next: 0 }
     }
-    fn gen(&self, rng: &mut Rng, single: bool) -> String {
+    fn gen_op(&self, rng: &mut Rng, single: bool) -> String {
         match rng.below(10) {
             0..=3 => format!("poll {} {}", if single { 0 } else { rng.below(2) }, if rng.chance(3, 4) { 0 } else { rng.below(NWAKERS as u64) }),
             4..=5 => format!("push_back {}", rng.below(100)),
@@ -295,7 +295,7 @@ impl Inst for DequeI {
                 "-".into()
             }
             "extend" => {
-                let mut q = self.q.clone();
+                let mut q = &self.q;
                 q.extend([op[1].parse::<u32>().unwrap(), op[2].parse::<u32>().unwrap()]);
                 "-".into()
             }
@@ -320,7 +320,7 @@ impl Inst for RecvI {
     fn new(_: &mut Rng) -> Self {
         RecvI { r: Default::default() }
     }
-    fn gen(&self, rng: &mut Rng, single: bool) -> String {
+    fn gen_op(&self, rng: &mut Rng, single: bool) -> String {
         match rng.below(10) {
             0..=4 => format!("poll {} {}", if single { 0 } else { rng.below(2) }, if rng.chance(2, 3) { 0 } else { rng.below(NWAKERS as u64) }),
             5..=7 => format!("recv {}", rng.below(100)),
@@ -368,7 +368,7 @@ impl Inst for SendWakerI {
     fn new(_: &mut Rng) -> Self {
         SendWakerI { s: ArcSendWaker::new() }
     }
-    fn gen(&self, rng: &mut Rng, single: bool) -> String {
+    fn gen_op(&self, rng: &mut Rng, single: bool) -> String {
         match rng.below(10) {
             0..=4 => format!("poll {} {} {}", if single { 0 } else { rng.below(2) }, if rng.chance(2, 3) { 0 } else { rng.below(NWAKERS as u64) }, rng.pick(&MASKS)),
             5..=8 => format!("wake_by {}", rng.pick(&MASKS)),
@@ -407,7 +407,7 @@ impl Inst for OpenI {
     fn new(_: &mut Rng) -> Self {
         OpenI { e: endpoint(Wiring::Client, P6 { l: [100, 100, 100], r: [100, 100, 100] }, 1000, 1000, 0) }
     }
-    fn gen(&self, rng: &mut Rng, _single: bool) -> String {
+    fn gen_op(&self, rng: &mut Rng, _single: bool) -> String {
         match rng.below(10) {
             0..=4 => {
                 let t = rng.below(3);
